@@ -390,7 +390,7 @@ class PCGLS:
         # initial state
         x = self._x0.copy()
         r = self._b - self._apply_A(x, 1)
-        s = self._apply_Pinv(self._apply_A(r, 2), 2)
+        s = self._apply_Pinv(self._apply_A(r, 2) - self._shift*x, 2)
         p = s.copy()
 
         # initial computations        
@@ -411,7 +411,7 @@ class PCGLS:
             t = self._apply_Pinv(p, 1)
             q = self._apply_A(t, 1)
             #
-            delta_cgls = LA.norm(q)**2
+            delta_cgls = LA.norm(q)**2 + self._shift*LA.norm(t)**2
             if (delta_cgls < 0):
                 indefinite = True
             elif (delta_cgls == 0):
@@ -420,7 +420,7 @@ class PCGLS:
             #
             x += alpha_cgls*t
             r -= alpha_cgls*q
-            s = self._apply_Pinv(self._apply_A(r, 2), 2)
+            s = self._apply_Pinv(self._apply_A(r, 2) - self._shift*x, 2)
             #
             norms = LA.norm(s)
             gamma1 = gamma.copy()
